@@ -322,9 +322,22 @@ def exportations (paths : List Name) (imps : List (Name × List Name)) :
 
 /-! ## Inverted indexes and span preparation -/
 
-/-- `collect_labels` / `collect_taxa` on the (name, path) occurrences in program order. -/
+/-- `collect_taxa` on the (name, path) occurrences in program order (`collect_labels` before fix F47). -/
 def collect (occ : List (Name × Name)) : List (Name × List Name) :=
   occ.foldl (fun d o => push d o.1 o.2) []
+
+/-- `if program.path not in result[label.name][-1:]: result[label.name].append(program.path)` -/
+def addNew (vs : List Name) (v : Name) : List Name := if vs.getLast? = some v then vs else vs ++ [v]
+
+def pushNew (d : List (Name × List Name)) (k v : Name) : List (Name × List Name) :=
+  match d with
+  | [] => [(k, [v])]
+  | (k', vs) :: t => if k' = k then (k', addNew vs v) :: t else (k', vs) :: pushNew t k v
+
+/-- `collect_labels` (fix F47): a program whose parser result holds several entries of one name (a hinted
+label bearing the name of a derived one) is listed once under that name. -/
+def collectNew (occ : List (Name × Name)) : List (Name × List Name) :=
+  occ.foldl (fun d o => pushNew d o.1 o.2) []
 
 def labelOcc (progs : List (Name × List Label)) : List (Name × Name) :=
   progs.flatMap fun p => p.2.map fun l => (l.name, p.1)
@@ -378,7 +391,7 @@ def makeDb (toTaxa : Name → List Label → List Taxon) (progs : List Prog) : E
   | .error e => .error e
   | .ok exps =>
     .ok { programs := progs.foldl (fun d p => set d p.path (recordOf toTaxa (internalOf progs) p)) []
-          labels := sortKeys (collect (labelOcc lab))
+          labels := sortKeys (collectNew (labelOcc lab))
           taxa := sortKeys (collect (taxonOcc (taxaed toTaxa progs)))
           importations := imps
           exportations := exps }
